@@ -390,6 +390,9 @@ func (e *kvElection) becomeLeader(token string, rev uint64) {
 		}
 	}
 
+	// Health failures are counted per leadership term.
+	e.healthFailureCount.Store(0)
+
 	e.isLeader.Store(true)
 	e.leaderID.Store(e.cfg.InstanceID)
 	e.token.Store(token)
